@@ -62,7 +62,7 @@ const UNIVERSE: usize = AMOUNTS.len() * N_KEYS;
 const MAX_FEE: u64 = 4;
 const MAX_TXS: usize = 6;
 const MAX_KERNELS: usize = 3;
-const QUICK_CASES: u64 = 2000;
+const QUICK_CASES: u64 = 4000;
 const THOROUGH_CASES: u64 = 40_000;
 
 fn universe(i: usize) -> OutRef {
